@@ -1258,9 +1258,18 @@ class Executor:
             return self.update(st, v, projs, i + 1, nv)
         if k == 'idx':
             iv = p[1]
+            if isinstance(iv, Int) and not iv.concrete:
+                # symbolic index into a small array: every element becomes ite(index == i, updated, old)
+                elems = list(self.elems_of(v))
+                if len(elems) > 64:
+                    raise ExecError('write through symbolic index into a large array')
+                bv = to_bv(iv)
+                out = []
+                for j, e in enumerate(elems):
+                    upd = self.update(st, e, projs, i + 1, nv)
+                    out.append(ite_value(bv == z3.BitVecVal(j, bv.size()), upd, e))
+                return type(v)(out)
             if isinstance(iv, Int):
-                if not iv.concrete:
-                    raise ExecError('write through symbolic index')
                 iv = iv.v
             elems = list(self.elems_of(v))
             if not (0 <= iv < len(elems)):
@@ -1955,6 +1964,7 @@ def flt_binop(op, a, b):
 
 
 FMOD_SIDE_CONDITIONS = []
+FMOD_OPERANDS = []
 
 # Floating-point comparison results are abstracted to fresh Boolean atoms during exploration: feasibility and
 # panic queries then stay in QF_BV (an over-approximation of feasibility, hence sound for "no path panics").
@@ -2034,6 +2044,7 @@ def fp_fmod(x, y, ty):
     side = z3.And(z3.fpEQ(z3.fpRoundToIntegral(z3.RTZ(), x), x), z3.fpEQ(z3.fpRoundToIntegral(z3.RTZ(), y), y),
                   z3.fpLT(z3.fpAbs(x), lim), z3.fpLT(z3.fpAbs(y), lim), z3.Not(z3.fpIsZero(y)))
     FMOD_SIDE_CONDITIONS.append(side)
+    FMOD_OPERANDS.append((x, y))
     r = z3.SRem(xi, yi)
     res = z3.fpSignedToFP(RNE, r, sort)
     # NOTE: C fmod returns -0.0 for a zero result of a negative dividend; +0.0 is produced here.  The sign of a zero
